@@ -116,7 +116,7 @@ def correspondence(ctx, model_available=True):
             else:
                 spec_ok += 1
         res.update({"model_vs_impl_agree": agree, "spec_vs_impl_agree": spec_ok, "skipped_unconstrained": skipped})
-    for b in program_level_oracle(rng, quick):
+    for b in opcode_oracle(rng, quick) + program_level_oracle(rng, quick):
         res["spec_failures"].append({"what": b})
     res["spec_failures"] = res["spec_failures"][:5]
     res["nontrivial"] = len({(n, tuple(map(tuple, t))) for n, t, _ in cases})
@@ -169,8 +169,57 @@ def program_level_oracle(rng, quick):
     return problems
 
 
+def opcode_oracle(rng, quick):
+    """OPCODE(d) does what the instruction with encoding d does: for instructions of every class (both halves of the
+    split LOAD/STORE offset and of the flag masks included), the real assembler gives d, and OPCODE(d) run on the
+    real machine ends where the instruction itself does (seed C03f: words 0x5xxx / 0x7xxx stopped decoding)."""
+    import hera.op as op
+    problems = []
+    R = lambda: ("REGISTER", rng.randrange(16))
+    cases = []
+    for name in ("LOAD", "STORE"):
+        for off in ([0, 15, 16, 31] if quick else range(32)):
+            cases.append((name, [R(), ("INT", off), R()]))
+    for name in ("FON", "FOFF", "FSET5"):
+        for m in ([0, 15, 16, 31] if quick else range(32)):
+            cases.append((name, [("INT", m)]))
+    for name in ("ADD", "SUB", "AND", "OR", "XOR", "MUL"):
+        cases.append((name, [R(), R(), R()]))
+    for name in ("LSL", "LSR", "ASL", "ASR", "LSL8", "LSR8"):
+        cases.append((name, [R(), R()]))
+    for name in ("INC", "DEC"):
+        for v in (1, 32, 33, 64):
+            cases.append((name, [R(), ("INT", v)]))
+    for name in ("SETLO", "SETHI"):
+        for v in (0, 127, 128, 255):
+            cases.append((name, [R(), ("INT", v)]))
+    cases += [("SAVEF", [R()]), ("RSTRF", [R()]), ("FSET4", [("INT", 9)]), ("BR", [R()]), ("BZ", [R()]), ("BRR", [("INT", 5)]),
+              ("BNZR", [("INT", 250)]), ("CALL", [("REGISTER", 12), ("REGISTER", 5)]), ("RETURN", [("REGISTER", 12), ("REGISTER", 13)])]
+    for name, toks in cases:
+        st = ec.rand_state(rng)
+        direct = oc.real_op(name, toks)
+        b, exc, _, _ = run_real(lambda: direct.assemble())
+        if exc:
+            continue
+        w = b[0] * 256 + b[1]
+        conv, fin = run_real_pseudo("OPCODE", [("INT", w)], st)
+        if fin is None or "raise" in fin or "raise" in conv:
+            problems.append("OPCODE(0x%04x), the encoding of %s%s, is not carried out: %s"
+                            % (w, name, tuple(v for _, v in toks), (fin or conv).get("raise")))
+            break
+        vm = st.make_vm()
+        _, exc, out, err = run_real(lambda: direct.execute(vm))
+        want = snapshot_vm(vm, out, err)
+        d = diff(fin, want)
+        if exc or d:
+            problems.append("OPCODE(0x%04x) departs from %s%s, the instruction it encodes: %s"
+                            % (w, name, tuple(v for _, v in toks), exc or d))
+            break
+    return problems
+
+
 def search(ctx, breaks):
-    bad = program_level_oracle(ctx.rng, False)
+    bad = opcode_oracle(ctx.rng, False) + program_level_oracle(ctx.rng, False)
     if bad:
         return [{"what": b} for b in bad[:3]]
     old = ctx.tier
